@@ -33,6 +33,8 @@ EXTENDS Naturals, Sequences, FiniteSets, TLC, Json, SequencesExt
 CONSTANTS Part,               \* "lines" | "mixed" | "sessions" | "c15" | "c15seq" | "c19"
           MaxLinesA,          \* sessions: maximal number of lines of session 1
           MaxLinesB,          \* sessions: maximal number of lines of session 2 (the concurrent one)
+          KF_ScanRecheckLeak, \* TRUE: scanForUnit looks the unit up again after taking the write lock and returns WITHOUT unlocking when
+                              \*       another scan has inserted it meanwhile (seeded/c08-scan-recheck-leaks-lock); FALSE: the code
           KF_FindUnitRelock,  \* TRUE: findUnit keeps its read lock across scanForUnit, which read-locks again and then
                               \*       write-locks (the code as found, DESIGN.md section 9 #4); FALSE: the read lock is dropped first
           MaxOps,             \* c19: maximal number of operations after the submit
@@ -347,8 +349,10 @@ W_NoDiskOnlyJson == ~(Part = "lines" /\ lc.uid = "diskonly" /\ Answer(lc).reply 
 (***************************************************************************)
 (*                 PART "sessions" : concurrent sessions                   *)
 (***************************************************************************)
-Kinds == {"empty", "err", "err_scan", "err2", "json", "q_unit", "rel_unit", "q_disk", "rel_disk", "stream", "stream_unit", "stream_disk", "eof_partial", "abort"}
-ContinuingKinds == {"empty", "err", "err_scan", "err2", "json", "q_unit", "rel_unit", "q_disk", "rel_disk"}
+\* q_shared: a query of ONE disk-only unit that both sessions name (their other units are private)
+Kinds == {"empty", "err", "err_scan", "err2", "json", "q_unit", "rel_unit", "q_disk", "rel_disk", "q_shared", "stream", "stream_unit", "stream_disk", "eof_partial", "abort"}
+ContinuingKinds == {"empty", "err", "err_scan", "err2", "json", "q_unit", "rel_unit", "q_disk", "rel_disk", "q_shared"}
+ExportKinds == Kinds \ {"q_shared"}       \* the shared unit is replayed by a phase of its own (several sessions at the same instant)
 
 Sessions == {1, 2}
 MaxLinesOf(s) == IF s = 1 THEN MaxLinesA ELSE MaxLinesB
@@ -363,6 +367,7 @@ Seq1(kind, un) ==
     [] kind \in {"err", "err_scan"} -> [reply |-> "error",  un |-> un]
     [] kind = "err2"     -> [reply |-> "error",  un |-> un]      \* malformed JSON: one ERROR line, the session goes on
     [] kind = "json"     -> [reply |-> "json",   un |-> un]
+    [] kind = "q_shared" -> [reply |-> "json", un |-> un]                     \* loaded by this session's scan or by the other one's
     [] kind = "q_unit"   -> [reply |-> IF un.u = "mem" THEN "json" ELSE "error", un |-> un]
     [] kind = "rel_unit" -> [reply |-> IF un.u = "mem" THEN "json" ELSE "error", un |-> [un EXCEPT !.u = "gone"]]
     [] kind = "q_disk"   -> [reply |-> IF un.d = "gone" THEN "error" ELSE "json",
@@ -386,6 +391,9 @@ ScanNoStatus ==                                     \* directory exists, no stat
 ScanLoad ==                                         \* directory with status: look (read lock), load, insert (write lock)
   IF KF_FindUnitRelock THEN <<"R", "R", "r", "Wa", "Wq", "w", "r">>
                        ELSE <<"R", "r", "R", "r", "Wa", "Wq", "w", "R", "r">>
+\* the shared unit: look-up (read lock), load, then insertion under the write lock - WqS notes whether the unit is in the
+\* index by now, insS inserts it, wS unlocks (the seeded variant returns before the unlock when it was there already)
+ScanLoadShared == <<"R", "r", "R", "r", "Wa", "WqS", "insS", "wS", "R", "r">>
 ReleaseOps == <<"Wa", "Wq", "w">>                   \* BaseWorkUnit.Release deletes from the index under the write lock
 AllocOps   == <<"Wa", "Wq", "w">>                   \* AllocateUnit
 
@@ -395,6 +403,7 @@ Programs(kind, un) ==
     [] kind = "err"      -> {<<>>, FindMissNoDir}
     [] kind = "err_scan" -> {ScanNoStatus}
     [] kind = "json"     -> {<<>>, <<"R", "r">>}                        \* status / work list
+    [] kind = "q_shared" -> {IF lk.sh = "disk" THEN ScanLoadShared ELSE FindHit}
     [] kind = "q_unit"   -> {IF un.u = "mem" THEN FindHit ELSE FindMissNoDir}
     [] kind = "rel_unit" -> {IF un.u = "mem" THEN FindHit \o ReleaseOps ELSE FindMissNoDir}
     [] kind \in {"q_disk", "stream_disk"} ->
@@ -411,21 +420,24 @@ FormsOf(kind) ==      \* (under the code's rule the form cannot matter, so it is
   CASE ~RequestStateKeptAcrossLines \/ kind \in {"empty", "abort", "eof_partial"} -> {"plain"}
     [] kind = "err2" -> {"json_object", "json_bad"}          \* an object without a usable command / text that does not decode
     [] OTHER -> {"plain", "json_object"}
-SessInit == [sent |-> <<>>, got |-> <<>>, prog |-> <<>>, busy |-> FALSE, mode |-> "cmd", form |-> "plain", stale |-> FALSE]
+SessInit == [sent |-> <<>>, got |-> <<>>, prog |-> <<>>, busy |-> FALSE, mode |-> "cmd", form |-> "plain", stale |-> FALSE, found |-> FALSE]
 
 OpEnabled(s, op) ==
   CASE op = "R"  -> lk.wr = 0 /\ lk.ww = {}              \* a pending writer blocks new readers (also re-entrant ones)
     [] op = "r"  -> lk.rd[s] > 0
     [] op = "Wa" -> TRUE
-    [] op = "Wq" -> lk.wr = 0 /\ \A t \in Sessions : lk.rd[t] = 0
-    [] op = "w"  -> lk.wr = s
+    [] op \in {"Wq", "WqS"} -> lk.wr = 0 /\ \A t \in Sessions : lk.rd[t] = 0
+    [] op \in {"w", "wS"}  -> lk.wr = s
+    [] op = "insS" -> TRUE
 
 DoOp(s, op) ==
   CASE op = "R"  -> [lk EXCEPT !.rd[s] = @ + 1]
     [] op = "r"  -> [lk EXCEPT !.rd[s] = @ - 1]
     [] op = "Wa" -> [lk EXCEPT !.ww = @ \cup {s}]
-    [] op = "Wq" -> [lk EXCEPT !.wr = s, !.ww = @ \ {s}]
+    [] op \in {"Wq", "WqS"} -> [lk EXCEPT !.wr = s, !.ww = @ \ {s}]
     [] op = "w"  -> [lk EXCEPT !.wr = 0]
+    [] op = "insS" -> [lk EXCEPT !.sh = "mem"]
+    [] op = "wS" -> IF KF_ScanRecheckLeak /\ ss[s].found THEN lk ELSE [lk EXCEPT !.wr = 0]    \* the early return keeps the lock for ever
 
 \* a client sends its next line; the handler's program is chosen
 Send(s, kind) ==
@@ -439,7 +451,7 @@ Step(s) ==
   /\ ss[s].busy /\ ss[s].prog # <<>>
   /\ OpEnabled(s, Head(ss[s].prog))
   /\ lk' = DoOp(s, Head(ss[s].prog))
-  /\ ss' = [ss EXCEPT ![s].prog = Tail(@)]
+  /\ ss' = [ss EXCEPT ![s].prog = Tail(@), ![s].found = IF Head(ss[s].prog) = "WqS" THEN lk.sh = "mem" ELSE @]
   /\ UNCHANGED du
 
 \* the handler writes its reply
@@ -480,6 +492,7 @@ AlwaysAnswersS ==
   Part = "sessions" => \A s \in Sessions : \A i \in 1..Len(ss[s].got) :
      ss[s].sent[i] \in {"err", "err_scan", "err2"} => ss[s].got[i] = "error"
 W_NoRescanDone == ~(Part = "sessions" /\ \E s \in Sessions : du[s].d = "mem")
+W_NoSharedScanTwice == ~(Part = "sessions" /\ \E s \in Sessions : ss[s].found)     \* a scan found the shared unit inserted by the other one
 W_NoTwoBusy    == ~(Part = "sessions" /\ \A s \in Sessions : ss[s].busy /\ ss[s].prog # <<>>)
 
 \* ---- export: every session of at most n lines (a line after a closing kind is impossible)
@@ -487,7 +500,7 @@ RECURSIVE SeqsUpTo(_)
 SeqsUpTo(n) ==
   IF n = 0 THEN {<<>>}
   ELSE LET prev == SeqsUpTo(n - 1) IN
-       prev \cup { Append(q, k) : q \in { p \in prev : Len(p) = n - 1 /\ \A i \in 1..Len(p) : p[i] \in ContinuingKinds }, k \in Kinds }
+       prev \cup { Append(q, k) : q \in { p \in prev : Len(p) = n - 1 /\ \A i \in 1..Len(p) : p[i] \in ContinuingKinds }, k \in ExportKinds }
 
 SessVec(a, b) == [a |-> a, b |-> b, expect_a |-> RunSeq(a, UnitsInit), expect_b |-> RunSeq(b, UnitsInit)]
 SessionVectors == { SessVec(a, b) : a \in SeqsUpTo(MaxLinesA) \ {<<>>}, b \in SeqsUpTo(MaxLinesB) }
@@ -543,7 +556,7 @@ TokValid(t)   == t = "valid"
 \* remote submission is a name of the other node (not registered here), so the submitting node never asks for a token.
 Verifies(cmd, wt) ==
   CASE wt = "verifying"   -> TRUE
-    [] wt = "remote_sign" -> cmd # "submit"
+    [] wt \in {"remote_sign", "remote_sign_polled"} -> cmd # "submit"
     [] OTHER              -> FALSE
 
 HasObject(cmd, wt) == ~(cmd = "submit" /\ wt = "unknown")     \* nothing can be created for an unknown type
@@ -569,11 +582,14 @@ Vec15(cmd, conn, wt, tok) == [cmd |-> cmd, conn |-> conn, wt |-> wt, tok |-> tok
                                why |-> IF wt \in SpellVariants15 THEN "unknown_type" ELSE Why(cmd, conn, wt, tok)]
 Vectors15 == { Vec15(c, k, w, t) : c \in Cmds15, k \in Conns15, w \in WTs15, t \in Toks15 }
              \cup { Vec15("submit", k, w, t) : k \in Conns15, w \in SpellVariants15, t \in Toks15 }
+             \* a signed remote unit that really runs on another node and whose status has been mirrored at least once: the
+             \* token rule of a remote unit is fixed by its signwork flag for its whole life, whatever the executor reports
+             \cup { Vec15(c, k, "remote_sign_polled", t) : c \in Cmds15 \ {"submit"}, k \in Conns15, t \in Toks15 }
 \* whatever a daemon does with another spelling, it may not be more than what the type it resolves to allows
 SpellingNeverWidens == Part = "c15" => (v15.effect => v15.allowed_if_resolved)
 
 \* what the property protects: types configured to verify, and remote units that were asked to be signed
-Protected(cmd, wt) == wt = "verifying" \/ (wt = "remote_sign" /\ cmd # "submit")
+Protected(cmd, wt) == wt = "verifying" \/ (wt \in {"remote_sign", "remote_sign_polled"} /\ cmd # "submit")
 NoEffectWithoutToken ==
   Part = "c15" => (v15.effect /\ Protected(v15.cmd, v15.wt) /\ v15.conn # "unix" => v15.tok = "valid")
 UnexpectedTokenRefused ==
@@ -687,12 +703,18 @@ Ops19 == {"status", "list", "list_one", "cancel", "release", "restart"}
 \*   ttl_bad     malformed ttl: the command answers an error in step 2, but the unit of step 1 STAYS (listed, on disk,
 \*               with every parameter and no TLSClient recorded) - existing behaviour of the code, modelled as such
 \*   crash_mid   the process dies between step 1 and step 3 and is restarted: the same record is loaded from disk
-SubmitVariants == {"ok", "ttl_ok", "ttl_past", "abort_stdin", "listed_mid", "tls_unknown", "ttl_bad", "crash_mid"}
+\*   exec_unknown_type / exec_needs_signature / exec_param_refused   the submission is accepted here and handed to the other
+\*               node on the first, synchronous connection, and THAT node refuses it (work type not configured there, the type
+\*               wants a signature, an extra parameter is not allowed): the command answers an error after the stdin phase,
+\*               the unit stays (Failed, Detail = the error text) - an error text must not carry parameter values either
+ExecRefusals == {"exec_unknown_type", "exec_needs_signature", "exec_param_refused"}
+SubmitVariants == {"ok", "ttl_ok", "ttl_past", "abort_stdin", "listed_mid", "tls_unknown", "ttl_bad", "crash_mid"} \cup ExecRefusals
 
 Outcome19(ks, tls, sv) ==
   IF sv = "tls_unknown" \/ (~tls /\ \E k \in ks : IsSecret(k)) THEN "refused"          \* before anything is allocated
   ELSE IF sv = "ttl_bad" THEN "failed_after_alloc"
   ELSE IF sv = "crash_mid" THEN "crashed_after_alloc"
+  ELSE IF sv \in ExecRefusals THEN "refused_by_executor"
   ELSE "accepted"
 
 \* state of the submitting node for one unit: mem/disk = the parameter keys held in memory / in the status file
@@ -701,13 +723,14 @@ Outcome19(ks, tls, sv) ==
 H19Init(ks, tls, sv) ==
   LET oc == Outcome19(ks, tls, sv)
       refused == oc = "refused"
-      first == [op |-> "submit", reply |-> CASE oc = "accepted" -> "created" [] oc = "crashed_after_alloc" -> "none" [] OTHER -> "error", shown |-> {}] IN
+      first == [op |-> "submit", reply |-> CASE oc = "accepted" -> "created" [] oc = "crashed_after_alloc" -> "none"
+                                             [] oc = "refused_by_executor" -> "created_then_error" [] OTHER -> "error", shown |-> {}] IN
   [keys |-> ks, tls |-> tls, sv |-> sv, outcome |-> oc, ops |-> <<>>,
    unit |-> IF refused THEN "none" ELSE "live",
    dir  |-> ~refused,                                \* a unit directory exists
-   wire |-> IF oc = "accepted" THEN ks ELSE {},      \* keys whose values may be sent to the other node (over the named TLS profile when there are secrets)
+   wire |-> IF oc \in {"accepted", "refused_by_executor"} THEN ks ELSE {},      \* keys whose values may be sent to the other node (over the named TLS profile when there are secrets)
    mem  |-> IF refused THEN {} ELSE ks, disk |-> IF refused THEN {} ELSE ks,
-   tlsrec |-> oc = "accepted" /\ tls,
+   tlsrec |-> oc \in {"accepted", "refused_by_executor"} /\ tls,
    replies |-> IF sv = "listed_mid" /\ oc = "accepted"
                THEN << first, [op |-> "list_mid", reply |-> "json", shown |-> Redact(ks)] >>   \* the other session's list sees the half-made unit
                ELSE << first >>]
@@ -790,7 +813,7 @@ Init ==
   /\ lc  \in (IF Part = "lines" THEN LineClasses ELSE IF Part = "mixed" THEN MixedVectors ELSE {Parked})
   /\ ss  = IF Part = "sessions" THEN [s \in Sessions |-> SessInit] ELSE Parked
   /\ du  = IF Part = "sessions" THEN [s \in Sessions |-> UnitsInit] ELSE Parked
-  /\ lk  = IF Part = "sessions" THEN [rd |-> [s \in Sessions |-> 0], wr |-> 0, ww |-> {}] ELSE Parked
+  /\ lk  = IF Part = "sessions" THEN [rd |-> [s \in Sessions |-> 0], wr |-> 0, ww |-> {}, sh |-> "disk"] ELSE Parked
   /\ v15 \in (IF Part = "c15" THEN Vectors15 ELSE IF Part = "c15seq" THEN {Seq15Init} ELSE {Parked})
   /\ IF Part = "c19" THEN Init19 ELSE h19 = Parked
 
